@@ -1104,10 +1104,18 @@ def timer_shrinks(case):
     return out
 
 
+def timer_threads_gen(tier, seed):
+    return [["gen-threads", seed, 60 if tier == "quick" else 3000]]
+
+
 PROPS["C18"] = {
     "streams": [Stream("timer", "timer", "timer", timer_gen, nontrivial=timer_nontrivial, shape=timer_shape,
-                       shrink=timer_shrinks)],
-    "rule": "case = host (cmd: every timer's Command driven directly with effects()/events()/is_done(); core: the Commands "
+                       shrink=timer_shrinks),
+                Stream("threads", "timer", "timer", timer_threads_gen, shrink=int_shrinks)],
+    "rule": "threads stream: 2-6 real threads released by a barrier, each creating 1-40 timers through the command API (notify_after "
+            "/ notify_at, polled once so that the request carrying the id is emitted); every id handed out in the process must differ "
+            "from every other (model: one atomic counter, Props.C18.ids_unique_across_threads). timer stream: "
+            "case = host (cmd: every timer's Command driven directly with effects()/events()/is_done(); core: the Commands "
             "returned from an App's update and hosted by a real Core; legacy: caps.time.notify_after/notify_at/clear in a Core; "
             "mixed: ONE app in ONE Core that starts timers through BOTH APIs in an interleaved order - per timer either the "
             "legacy capability or command::Time created in update on its start action) "
